@@ -123,7 +123,7 @@ def shards(tier, seed):
     out = []
     for fam in fams:
         for impl in ('c', 'py'):
-            out.append({'fam': fam, 'impl': impl})
+            out.append({'fam': fam, 'impl': impl, 'tier': tier})
     return out
 
 
@@ -180,14 +180,18 @@ def run_shard(shard, ctx):
         klass = F.cls(fam, kind, impl)
         sizes = (3, 3) if is_tree else None
         with F.NodeSizes(klass, sizes):
-            entries = (['setitem', 'setdefault', 'update', 'ctor', 'setstate'] + (['insert'] if kind == 'BTree' else [])) \
-                if is_map else ['add', 'insert', 'update', 'ctor', 'setstate', 'ior']
+            entries = (['setitem', 'setdefault', 'update', 'ctor', 'setstate', 'update:dict', 'update:OOBTree',
+                        'update:OOBucket', 'ctor:OOBTree'] + (['insert'] if kind == 'BTree' else [])) \
+                if is_map else ['add', 'insert', 'update', 'ctor', 'setstate', 'ior', 'update:OOSet',
+                                'update:OOTreeSet', 'ctor:OOTreeSet']
             roles = ['key', 'value'] if is_map else ['key']
             for state in STATES:
                 if (state == 'deep' and not is_tree):
                     continue
+                if shard.get('tier') == 'quick' and state == 'leaf' and is_tree:
+                    continue        # quick tier: trees are probed empty and three-level only
                 for entry in entries:
-                    if entry in ('ctor', 'setstate') and state != 'empty':
+                    if entry.split(':')[0] in ('ctor', 'setstate') and state != 'empty':
                         continue
                     for role in roles:
                         code = fam[0] if role == 'key' else fam[1]
@@ -282,6 +286,26 @@ def _point(ctx, case, fam, impl, kind, state, entry, role, x, rep, expect, class
         elif entry == 'setstate':
             leaf = ((k, v),) if is_map else ((k,),)
             t.__setstate__(((leaf,),) if is_tree else leaf)
+        elif ':' in entry:
+            # the data arrive inside another container (a dict, or a container of the
+            # all-accepting OO family of the same implementation)
+            how, src = entry.split(':')
+            try:
+                if src == 'dict':
+                    source = {k: v}
+                else:
+                    source = F.cls('OO', src[2:], impl)()
+                    if is_map:
+                        source[k] = v
+                    else:
+                        source.add(k)
+            except Exception:
+                classes['source_not_constructible'] = classes.get('source_not_constructible', 0) + 1
+                return
+            if how == 'update':
+                t.update(source)
+            else:
+                t = klass(source)
         elif entry == 'add':
             t.add(k)
         elif entry == 'insert':
